@@ -502,16 +502,39 @@ func checkC06(c *hx.Checker) {
 			jc.id += " clip"
 			jc.dom = hx.DNoPanic
 			jobs = append(jobs, jc)
-			jseq := base.job()
-			lens := ref.New(ref.I32, 2)
-			lens.V[0], lens.V[1] = 2, 2
-			jseq.oc.Inputs[4] = hx.ToTJ(lens)
-			jseq.id += " sequence_lens"
-			jseq.dom = hx.DRefuse // full-length sequence_lens: same result as without, or refused
-			jobs = append(jobs, jseq)
+			// sequence_lens (outside the statement's quantifier, but an accepted input must never be ignored): every
+			// assignment of valid lengths 1..S to the batch entries must be honoured (zero rows in Y beyond an entry's
+			// length, its state carried to Y_h / Y_c) or refused
+			for _, geo := range [][2]int{{2, 2}, {3, 2}, {3, 3}} {
+				gb := base
+				gb.S, gb.B = geo[0], geo[1]
+				X, W, R, B, h0, c0, P := gb.tensors()
+				attrs, ra := gb.attrs()
+				for _, ls := range seqs(rangeI64(1, geo[0]), geo[1], geo[1]) {
+					ra.SeqLens = make([]int, len(ls))
+					lens := ref.New(ref.I32, len(ls))
+					for i, l := range ls {
+						ra.SeqLens[i] = int(l)
+						lens.V[i] = uint64(l)
+					}
+					exp, err := ref.Recurrent(gb.Op, X, W, R, B, h0, c0, P, ra)
+					ins := gb.inputs(X, W, R, B, h0, c0, P)
+					ins[4] = lens
+					for _, rt := range []string{"op", "model"} {
+						var init []bool
+						if rt == "model" {
+							init = make([]bool, len(ins))
+							init[1], init[2], init[3], init[4] = true, true, true, true
+						}
+						jq := newJob(gb.Op, attrs, ins, exp, err, hx.DRefuse, gb.cmp(), rt, init, gb.id()+fmt.Sprintf(" sequence_lens=%v", ls), "sequence_lens")
+						jq.oc.NOut = gb.nOut()
+						jobs = append(jobs, jq)
+					}
+				}
+			}
 		}
 		// larger geometries beyond the exhaustive box
-		for _, g := range [][4]int{{12, 4, 5, 9}, {20, 1, 3, 16}, {2, 7, 11, 4}} {
+		for _, g := range [][4]int{{12, 4, 5, 9}, {20, 1, 3, 16}, {2, 7, 11, 4}, {5, 3, 37, 35}, {3, 17, 5, 67}, {41, 2, 3, 3}} {
 			v := recCfg{Op: op, DT: "float32", S: g[0], B: g[1], I: g[2], H: g[3], HasB: true, HasH0: true, HasC0: op == "LSTM", HasP: op == "LSTM", Route: "op"}
 			jl := v.job()
 			jl.tags = append(jl.tags, "large")
